@@ -270,6 +270,7 @@ func execC05(b []byte) vx.Verdict {
 	stopFaults := make(chan struct{})
 	var fwg sync.WaitGroup
 	faultsApplied := 0
+	var relayMu sync.Mutex
 	if remote {
 		for _, f := range s.Faults {
 			f := f
@@ -293,9 +294,11 @@ func execC05(b []byte) vx.Verdict {
 					time.Sleep(dur)
 					linkRB.SetUp(true)
 				case "restart-relay":
+					relayMu.Lock() // two overlapping restarts would start the relay twice (two live nodes called nr)
 					m.StopNode("nr")
 					time.Sleep(dur + 1200*time.Millisecond)
 					m.StartNode("nr")
+					relayMu.Unlock()
 				}
 			}()
 		}
